@@ -307,41 +307,56 @@ def _compare(op, left, right):
         return op == '!='
 
 
-def _generate_filter_in_python(node, def_filter):
+def _generate_filter_in_python(node, def_filter, literals=None):
+    if literals is None:
+        literals = []
     if isinstance(node, FilterPath):
         def_filter.append("_get_path(_grid, _entity, %s)" % node.path)
     elif isinstance(node, FilterBinary) and (node.op in _COMPARE_OPS):
         def_filter.append("_compare(%r, " % node.op)
-        def_filter.extend(_generate_filter_in_python(node.left, []))
+        def_filter.extend(_generate_filter_in_python(node.left, [], literals))
         def_filter.append(", ")
-        def_filter.extend(_generate_filter_in_python(node.right, []))
+        def_filter.extend(_generate_filter_in_python(node.right, [], literals))
         def_filter.append(")")
     elif isinstance(node, FilterBinary):
         def_filter.append("(")
-        def_filter.extend(_generate_filter_in_python(node.left, []))
+        def_filter.extend(_generate_filter_in_python(node.left, [], literals))
         def_filter.append(" " + node.op + " ")
-        def_filter.extend(_generate_filter_in_python(node.right, []))
+        def_filter.extend(_generate_filter_in_python(node.right, [], literals))
         def_filter.append(")")
     elif isinstance(node, FilterUnary):
         if node.op == "has":
             def_filter.append('(id(')
-            def_filter.extend(_generate_filter_in_python(node.right, []))
+            def_filter.extend(_generate_filter_in_python(node.right, [], literals))
             def_filter.append(') !=  id(NOT_FOUND))')
         elif node.op == "not":
             def_filter.append('(id(')
-            def_filter.extend(_generate_filter_in_python(node.right, []))
+            def_filter.extend(_generate_filter_in_python(node.right, [], literals))
             def_filter.append(") == id(NOT_FOUND))")
         else:  # pragma: no cover
             assert 0
     else:
-        def_filter.append(repr(node))
+        # A literal value.  It is handed to the generated function as an
+        # object: splicing repr(node) into the source would execute whatever
+        # the repr looks like (and most reprs are not valid expressions).
+        literals.append(node)
+        def_filter.append("_literals[%d]" % (len(literals) - 1))
     return def_filter
 
 
+# Literal values of the filters being compiled, by generated function name
+_LITERALS = {}
+
+
 class _FnWrapper():
-    def __init__(self, fun_name, function_template):
+    def __init__(self, fun_name, function_template, literals=None):
         self.fun_name = fun_name
-        exec(function_template, globals(), globals())
+        _LITERALS[fun_name] = literals if literals is not None else []
+        try:
+            exec(function_template, globals(), globals())
+        finally:
+            # The generated function captured the list as a default argument
+            del _LITERALS[fun_name]
 
     def __del__(self):  # pragma: no cover
         del globals()[self.fun_name]  # Remove generated function if the LRU ask that
@@ -352,12 +367,14 @@ class _FnWrapper():
 @lru_cache(maxsize=FILTER_CACHE_LRU_SIZE)
 def _filter_function(filter):
     global _id_function
-    def_filter = _generate_filter_in_python(parse_filter(filter)._head, [])
+    literals = []
+    def_filter = _generate_filter_in_python(parse_filter(filter)._head, [], literals)
     fun_name = "_gen_hsfilter_" + str(_id_function)
-    function_template = "def %s(_grid, _entity):\n  return " % fun_name + "".join(def_filter)
+    function_template = "def %s(_grid, _entity, _literals=_LITERALS[%r]):\n  return " \
+                        % (fun_name, fun_name) + "".join(def_filter)
     print("\nGenerate:\n# " + filter + "\n" + function_template)  # FIXME: debug
     _id_function += 1
-    return _FnWrapper(fun_name, function_template)
+    return _FnWrapper(fun_name, function_template, literals)
 
 
 def filter_function(filter):
